@@ -472,9 +472,14 @@ func runC09(env *core.Env) {
 		{Name: "prune||set-done", Store: cf.SA, Procs: []core.Req{core.R("", "--json", "prune", "--yes"), core.R("", "--json", "set", cf.T2).In(`{"state":"done"}`)}},
 		{Name: "prune||prune", Store: cf.SA, Procs: []core.Req{core.R("", "--json", "prune", "--yes"), core.R("", "--json", "prune", "--yes")}},
 	}, invC14)
+	// prune under I/O errors and short writes: what it reports as pruned must be pruned (exit 0 => effect there),
+	// a failing prune must have removed nothing
+	pruneCmds := []crashCmd{{"prune", core.R("", "--json", "prune", "--yes")}}
+	faultCov := map[string]interface{}{"io_errors": faultPhase(env, "C09", cf.SA, pruneCmds), "short_writes": shortWritePhase(env, "C09", cf.SA, pruneCmds)}
 	env.Finish("model_checking", map[string]interface{}{
-		"concurrent": concCov,
-		"states":     evalsA + permChecked, "transitions": followUps + reissue + 2*evalsA, "traces_validated_against_impl": validated, "samples": samples.list,
+		"fault_phases": faultCov,
+		"concurrent":   concCov,
+		"states":       evalsA + permChecked, "transitions": followUps + reissue + 2*evalsA, "traces_validated_against_impl": validated, "samples": samples.list,
 		"exhaustive": env.TimeLeft(), "stores_pruned": evalsA, "stores_where_something_was_pruned": prunedSomething, "follow_up_commands_on_pruned_ids": followUps,
 		"id_issue_scenarios": reissue, "event_order_permutations": permChecked, "permutations_violating": resurrected, "prune_outcome_classes": classes.snapshot(),
 		"unconfirmed_candidates": unconfirmed.Load(),
